@@ -182,7 +182,10 @@ def handle (z : St) (args : List String) : Option (St × Proto.Out) :=
     -- `delete_node_edges` removes every incident edge of the adjacency lists, whether or not the
     -- deleting session can see it: all of them are touched in place
     let incident := ((z.w.store.outEdges id) ++ (z.w.store.inEdges id)).map (fun p => 2 * p.2 + 1)
-    let (z', out) := inPlaceOp z k (2 * id) w' mm (aget (z.view k).nodes id).isSome (.delNode id) "ok"
+    -- the deleter removes the incident edges IT sees; an edge another session creates meanwhile is
+    -- outside its snapshot and stays (dangling) — snapshot isolation does not forbid that
+    let seen := ((z.view k).edges.filter (fun kv => kv.2.src == id || kv.2.dst == id)).map (·.1)
+    let (z', out) := inPlaceOp z k (2 * id) w' mm (aget (z.view k).nodes id).isSome (.delNode id seen) "ok"
     pure (if mm then incident.foldl (fun acc key => acc.touch k key) z' else z', out)
   -- `MATCH (a)-[e]->(b) WHERE id(e) = x DELETE e`
   | ["qdele", k, e] => do
